@@ -8,7 +8,15 @@ def generate():
     palways = [po.extname for pn, po in Parameter.propertyDict.items() if po.export == 'always']
     calways = [po.extname for pn, po in Command.propertyDict.items() if po.export == 'always']
     import frappy.modulebase as mb
+    from props.c06 import prop_ser
+    decls = []
+    for pn, po in mb.Module.propertyDict.items():
+        key, text = prop_ser(po, po.default)
+        decls.append('(%s, %s, %s, %s, %s, %s)' % (lstr(pn), lstr(po.extname or ''), 'true' if po.export else 'false',
+                                                     'true' if po.export == 'always' else 'false', lstr(key), lstr(text)))
     return [
+        '/-- `Module.propertyDict`: (name, external name, exported, export always, default as Python value, default as exported) -/',
+        'def moduleDecls : List (String × String × Bool × Bool × String × String) := ' + llist(decls),
         'def secopBaseClasses : List String := ' + llist(lstr(x) for x in mb.SECoP_BASE_CLASSES),
         'def paramAlways : List String := ' + llist(lstr(x) for x in palways),
         'def commandAlways : List String := ' + llist(lstr(x) for x in calways),
